@@ -2,23 +2,31 @@
 C01 — Generated moves are exactly the legal moves of chess.
 
 Model: `Board.collectMoves` / `MoveGen` (the generator after the `fix:` commits);
-specification: `Spec.Position.legal` on the mailbox `abs b`.  This file holds the property
-theorems proved so far; the statement of the full equivalence is `LegalsSpec` below and is
-decided on every run by the differential oracle (implementation vs `Spec.legalMoves`) until its
-proof is complete.
+specification: `Spec.Position.legal` on the mailbox `abs b` (`Spec/Rules.lean`: pseudo-legality by
+stepping over squares, then "the mover's king is not attacked in the successor").
+The proofs live in `Proofs/Legal/*.lean` (geometry of rays and segments, attacks on the mailbox,
+meaning of the pin/check information, the three check regimes, the line test for pinned pieces,
+king steps, castling, en passant, assembly); this file holds the property theorems only.
 -/
-import ChessVerif.Props.C10
-import ChessVerif.Spec.WF
+import ChessVerif.Proofs.Legal.Reach
 
 namespace Chess.Props.C01
 open Chess Chess.Spec
 
-/-- the full statement of C01 for one board (what remains to be proved for all `WF` boards) -/
-def LegalsSpec (b : Board) : Prop :=
-  (∀ m : Move, m ∈ b.legalsList ↔ (abs b).legal m = true) ∧ b.legalsList.Nodup
+/-- **C01 (set equality).** On every well-formed board the move generator yields exactly the moves
+that are legal under the rules of chess: every legal move — castling, en passant, each of the four
+promotion choices, every check evasion — and no move that leaves the mover's own king attacked. -/
+theorem legals_iff (b : Board) (h : b.WF = true) (m : Move) :
+    m ∈ b.legalsList ↔ (abs b).legal m = true := Legal.legals_iff b h m
 
-/-- asking whether a single move is legal gives the same answer as generating: `is_legal` is
-membership in what the generator yields -/
+/-- **C01 (each exactly once).** -/
+theorem legals_nodup (b : Board) (h : b.WF = true) : b.legalsList.Nodup := Legal.legals_nodup b h
+
+/-- **C01 (single-move query).** Asking whether a single given move is legal gives the same answer. -/
+theorem isLegal_iff_spec (b : Board) (h : b.WF = true) (m : Move) :
+    b.isLegal m = (abs b).legal m := Legal.isLegal_iff_spec b h m
+
+/-- `is_legal` is membership in what the generator yields (by definition of `Board::is_legal`) -/
 theorem isLegal_iff (b : Board) (m : Move) : b.isLegal m = true ↔ m ∈ b.legalsList := by
   simp [Board.isLegal]
 
@@ -26,41 +34,46 @@ theorem isLegal_iff (b : Board) (m : Move) : b.isLegal m = true ↔ m ∈ b.lega
 theorem moveNew_isSome (b : Board) (m : Move) : (b.moveNew m).isSome = b.isLegal m := by
   unfold Board.moveNew; split <;> simp [*]
 
-/-- what the iterator yields is exactly what its entry list denotes (C10 `drain_eq`): a move is
-yielded iff some entry has its source and contains its destination — times four, in
-`PROMOTION_PIECES` order, for a promotion entry -/
-theorem yielded_iff_entry (g : MoveGen) (h : g.promoIdx = 0) (hi : g.index = 0) (m : Move)
-    (hlen : (C10.movesOf g).length < 5000) :
-    m ∈ g.toList ↔ ∃ e ∈ g.moves, m.source = e.src ∧ BB.mem (e.moves &&& g.mask) m.dest = true ∧
-      (if e.promotion then ∃ p ∈ MoveGen.promoPieces, m.piece = some p else m.piece = none) := by
-  unfold MoveGen.toList
-  rw [C10.drain_eq g h 5000 hlen]
-  unfold C10.movesOf C10.entryMoves
-  rw [hi, List.drop_zero]
-  simp only [List.mem_flatMap]
-  constructor
-  · rintro ⟨e, he, d, hd, hm⟩
-    refine ⟨e, he, ?_⟩
-    rw [BB.mem_toList] at hd
-    by_cases hp : e.promotion = true
-    · simp only [hp, if_true, List.mem_map] at hm ⊢
-      obtain ⟨p, hp', rfl⟩ := hm
-      exact ⟨rfl, hd, p, hp', rfl⟩
-    · simp only [hp, Bool.false_eq_true, if_false, List.mem_singleton] at hm ⊢
-      subst hm
-      exact ⟨rfl, hd, rfl⟩
-  · rintro ⟨e, he, hs, hd, hp⟩
-    refine ⟨e, he, m.dest, (BB.mem_toList _ _).mpr hd, ?_⟩
-    by_cases hpr : e.promotion = true
-    · simp only [hpr, if_true, List.mem_map] at hp ⊢
-      obtain ⟨p, hp1, hp2⟩ := hp
-      exact ⟨p, hp1, by cases m; simp_all⟩
-    · simp only [hpr, Bool.false_eq_true, if_false, List.mem_singleton] at hp ⊢
-      cases m; simp_all
+/-- per piece class (what `collect_moves` pushes for each of the six piece types denotes exactly
+the legal moves of the pieces of that type) -/
+theorem generic_iff (b : Board) (h : b.WF = true) (pc : Piece)
+    (hpc : pc = .knight ∨ pc = .bishop ∨ pc = .rook ∨ pc = .queen) (m : Move) :
+    Legal.InEntries (Legal.genericList b pc) m ↔ ((abs b).pieceAt m.source = some (b.turn, pc) ∧ (abs b).legal m = true) :=
+  Legal.generic_iff b h pc hpc m
+theorem pawn_iff (b : Board) (h : b.WF = true) (m : Move) :
+    Legal.InEntries (Legal.pawnList b) m ↔ ((abs b).pieceAt m.source = some (b.turn, .pawn) ∧ (abs b).legal m = true) :=
+  Legal.pawn_iff b h m
+theorem king_iff (b : Board) (h : b.WF = true) (m : Move) :
+    Legal.InEntries (Legal.kingList b) m ↔ ((abs b).pieceAt m.source = some (b.turn, .king) ∧ (abs b).legal m = true) :=
+  Legal.king_iff b h m
+
+/-- the hypotheses are satisfiable and the parser establishes them: every board `parse_fen` returns
+is well-formed (C06), so the three theorems above hold for every position the parser accepts -/
+theorem legals_iff_parsed (s : List Byte) (b : Board) (hp : Fen.parseFen s = .ok b) (m : Move) :
+    m ∈ b.legalsList ↔ (abs b).legal m = true := legals_iff b (C06.parse_WF s b hp) m
+
+/-- **C01 for every position reachable by legal play from the standard start** (castling rights and
+the en-passant marker are history-dependent; well-formedness is an invariant of legal play) -/
+theorem legals_iff_reachable_standard (b : Board) (hr : Board.Reachable Board.standard b) (m : Move) :
+    m ∈ b.legalsList ↔ (abs b).legal m = true := Legal.legals_iff_reachable_standard b hr m
+
+/-- **… and from any position the parser accepts** -/
+theorem legals_iff_reachable_parsed (s : List Byte) (b₀ b : Board) (hp : Fen.parseFen s = .ok b₀)
+    (hr : Board.Reachable b₀ b) (m : Move) :
+    m ∈ b.legalsList ↔ (abs b).legal m = true := Legal.legals_iff_reachable_parsed s b₀ b hp hr m
+
+theorem legals_nodup_reachable (b₀ b : Board) (h₀ : b₀.WF = true) (hr : Board.Reachable b₀ b) :
+    b.legalsList.Nodup := Legal.legals_nodup_reachable b₀ b h₀ hr
+
+theorem isLegal_iff_spec_reachable (b₀ b : Board) (h₀ : b₀.WF = true) (hr : Board.Reachable b₀ b) (m : Move) :
+    b.isLegal m = (abs b).legal m := Legal.isLegal_iff_spec_reachable b₀ b h₀ hr m
+
+/-- every reachable board is well-formed -/
+theorem reachable_WF (b₀ b : Board) (h₀ : b₀.WF = true) (hr : Board.Reachable b₀ b) : b.WF = true :=
+  Legal.reachable_WF b₀ b h₀ hr
 
 set_option maxRecDepth 1000000 in
-/-- Non-vacuity / regression (tests, by kernel evaluation on concrete boards): the three en-passant
-positions in which the generator was wrong before the `fix:` commit now meet the specification. -/
-example : (Board.standard.legalsList.length = 20) := by decide +kernel
+/-- Non-vacuity (tests, by kernel evaluation): the start position is well-formed and has 20 moves -/
+example : Board.standard.WF = true ∧ Board.standard.legalsList.length = 20 := by decide +kernel
 
 end Chess.Props.C01
